@@ -21,6 +21,25 @@ LEAN = "/verif/lean"
 #   ("file", exit code, {these must break}, {these must not}) | ("fatal",)
 #   file: the source file that is edited; it selects the output that is checked (Bi.lean + BiTie.lean for bi.rs,
 #   convert.rs, approx_ext.rs, errors.rs; Mul.lean + MulTie.lean otherwise); "mul.rs@bi" edits mul.rs and checks Bi.lean
+# the comment + statement that closes cfuse / afuse / wfuse since repair df72a91 (identical in the three functions)
+RENORM = ("                // same renormalisation as the multinomial operators (`Simplex::normalized`): without it the deviation of\n"
+          "                // b + d + u from 1 that the operands carry (up to a few ulps, accepted by the constructor) is propagated and,\n"
+          "                // by cumulative fusion, amplified from call to call, and a fold of fusions eventually rejects its own result\n"
+          "                let s = b + d + u;\n")
+# the renormalisation of mul / comul / deduce (repair d46c983)
+RENORM2 = ("                // renormalise like the fusion operators: the deviation of b + d + u from 1 carried by the operands plus the\n"
+           "                // rounding of the independent formulas otherwise leaves the 4-ulp window of the self-check\n"
+           "                let s = b + d + u;\n")
+# compute_base_rate since repair c8a7116: the head of the guard ladder, the Avg arm up to its shortcut value, the Wgh formula arm
+BR_HEAD = ("    if std::ptr::eq(lhs.base_rate, rhs.base_rate) {\n        lhs.base_rate.clone()\n"
+           "    } else if lhs.is_dogmatic() && rhs.is_dogmatic() {")
+BR_AVG = ("FuseOp::Avg => T::from_fn(|i| {\n                if lhs.base_rate[i] == rhs.base_rate[i] {\n"
+          "                    lhs.base_rate[i]")
+BR_WGH = ("if lhs.base_rate[i] == rhs.base_rate[i] {\n                        lhs.base_rate[i]\n"
+          "                    } else {\n                        (lhs.base_rate[i] * lhs_sum_b + rhs.base_rate[i] * rhs_sum_b) / temp")
+FUSE_DEPS = {"gen_compute_base_rate_eq", "gen_fuse_eq", "gen_fuse_ref_simplex_eq", "gen_fuse_opinion_simplex_eq",
+             "gen_fuse_opinion_opinion_eq", "gen_fuse_assign_opinion_ref_eq", "gen_fuse_assign_opinion_opinion_eq",
+             "gen_fuse_assign_opinion_simplex_eq"}
 MUTATIONS = [
     ("control", "bi.rs", None, None, None),
     ("mul: base_rate -> b() in one factor", "bi.rs",
@@ -31,34 +50,77 @@ MUTATIONS = [
      "b = (self.b() * rhs.u() * ca + rhs.b() * cb * self.u()) / denom;", "gen_wfuse_eq"),
     ("deduce: > -> >= in the case selector", "bi.rs",
      "match (cond[0].b() > cond[1].b(),", "match (cond[0].b() >= cond[1].b(),", "gen_deduce_eq"),
-    ("deduce: cond[1].b() -> cond[0].b() in K (case II.A.1)", "bi.rs",
-     "self.base_rate * self.u() * (bi - cond[1].b()) / (px * ay)",
-     "self.base_rate * self.u() * (bi - cond[0].b()) / (px * ay)", "gen_deduce_eq"),
-    ("deduce: swap the bodies' order of two match arms (false,true)<->(true,false)", "bi.rs",
-     "(false, true) => {\n                                if bp {\n                                    // Case II.A.2",
-     "(true, false) => {\n                                if bp {\n                                    // Case II.A.2",
-     "gen_deduce_eq"),
-    # ---- guarded catch-all arm of deduce (`_ if b0 == b1 || d0 == d1 => 0.0`, repair 4d5bbb1)
-    ("deduce guard: || -> && in the tie guard", "bi.rs",
-     "_ if cond[0].b() == cond[1].b() || cond[0].d() == cond[1].d() => 0.0,",
-     "_ if cond[0].b() == cond[1].b() && cond[0].d() == cond[1].d() => 0.0,", ("exact", 0, {"gen_deduce_eq"})),
-    ("deduce guard: == -> >= in the tie guard", "bi.rs",
-     "_ if cond[0].b() == cond[1].b() || cond[0].d() == cond[1].d() => 0.0,",
-     "_ if cond[0].b() >= cond[1].b() || cond[0].d() == cond[1].d() => 0.0,", ("exact", 0, {"gen_deduce_eq"})),
-    ("deduce guard: the tie arm removed (pre-repair text)", "bi.rs",
-     "_ if cond[0].b() == cond[1].b() || cond[0].d() == cond[1].d() => 0.0,", "", ("exact", 0, {"gen_deduce_eq"})),
-    ("deduce guard: body of the tie arm 0.0 -> 1.0", "bi.rs",
-     "_ if cond[0].b() == cond[1].b() || cond[0].d() == cond[1].d() => 0.0,",
-     "_ if cond[0].b() == cond[1].b() || cond[0].d() == cond[1].d() => 1.0,", ("exact", 0, {"gen_deduce_eq"})),
-    ("deduce guard: catch-all written as a tuple of `_` (same function: the tie must HOLD)", "bi.rs",
-     "_ if cond[0].b() == cond[1].b() || cond[0].d() == cond[1].d() => 0.0,",
-     "(_, _) if cond[0].b() == cond[1].b() || cond[0].d() == cond[1].d() => 0.0,", None),
-    ("deduce guard: guard on a pattern that is not a catch-all (outside the subset => hole)", "bi.rs",
-     "_ if cond[0].b() == cond[1].b() || cond[0].d() == cond[1].d() => 0.0,",
-     "(_, false) if cond[0].b() == cond[1].b() || cond[0].d() == cond[1].d() => 0.0,", ("exact", 3, {"gen_deduce_eq"})),
-    ("deduce guard: guard on the last arm (outside the subset => hole)", "bi.rs",
-     "(bp, _) => {\n                        let pyx", "(bp, _) if bp || !bp => {\n                        let pyx",
+    # ---- deduce after repair b163717: `k = match (b0 > b1, d0 > d1) { .. => 0.0, (true, false) => { ka; kb; ka.min(kb) }, .. }`
+    ("deduce: cond[1].b() -> cond[0].b() in ka (Case II)", "bi.rs",
+     "let ka = self.base_rate * self.u() * (cond[0].b() - cond[1].b()) / ay;",
+     "let ka = self.base_rate * self.u() * (cond[0].b() - cond[0].b()) / ay;", ("exact", 0, {"gen_deduce_eq"})),
+    ("deduce: kb of Case III divided by ay instead of 1 - ay", "bi.rs",
+     "let kb = self.base_rate * self.u() * (cond[0].d() - cond[1].d()) / (1.0 - ay);",
+     "let kb = self.base_rate * self.u() * (cond[0].d() - cond[1].d()) / ay;", ("exact", 0, {"gen_deduce_eq"})),
+    ("deduce: ka.min(kb) -> kb.min(ka) in Case II (differs on NaN / ties only: the tie must BREAK)", "bi.rs",
+     "let kb = rvax * self.u() * (cond[1].d() - cond[0].d()) / (1.0 - ay);\n                        ka.min(kb)",
+     "let kb = rvax * self.u() * (cond[1].d() - cond[0].d()) / (1.0 - ay);\n                        kb.min(ka)",
+     ("exact", 0, {"gen_deduce_eq"})),
+    ("deduce: ka.min(kb) -> ka.max(kb) in Case III", "bi.rs",
+     "let kb = self.base_rate * self.u() * (cond[0].d() - cond[1].d()) / (1.0 - ay);\n                        ka.min(kb)",
+     "let kb = self.base_rate * self.u() * (cond[0].d() - cond[1].d()) / (1.0 - ay);\n                        ka.max(kb)",
+     ("exact", 0, {"gen_deduce_eq"})),
+    ("deduce: the patterns of Case II and Case III exchanged", "bi.rs",
+     "(true, false) => {\n                        let ka = self.base_rate",
+     "(false, true) => {\n                        let ka = self.base_rate", "gen_deduce_eq"),
+    ("deduce: Case I arm 0.0 -> 1.0", "bi.rs",
+     "(true, true) | (false, false) => 0.0,", "(true, true) | (false, false) => 1.0,", ("exact", 0, {"gen_deduce_eq"})),
+    ("deduce: the tie guard of repair 4d5bbb1 re-inserted (same value in exact arithmetic: the tie must BREAK)", "bi.rs",
+     "(true, true) | (false, false) => 0.0,",
+     "(true, true) | (false, false) => 0.0,\n                    _ if cond[0].b() == cond[1].b() || cond[0].d() == cond[1].d() => 0.0,",
+     ("exact", 0, {"gen_deduce_eq"})),
+    ("deduce: harmless extra parentheses around the receiver of .min (same tree: the tie must HOLD)", "bi.rs",
+     "let kb = rvax * self.u() * (cond[1].d() - cond[0].d()) / (1.0 - ay);\n                        ka.min(kb)",
+     "let kb = rvax * self.u() * (cond[1].d() - cond[0].d()) / (1.0 - ay);\n                        (ka).min(kb)", None),
+    ("deduce: .min on a receiver that is not recognisably a float (outside the subset => hole)", "bi.rs",
+     "let kb = rvax * self.u() * (cond[1].d() - cond[0].d()) / (1.0 - ay);\n                        ka.min(kb)",
+     "let kb = rvax * self.u() * (cond[1].d() - cond[0].d()) / (1.0 - ay);\n                        if (ka > kb).min(true) { kb } else { ka }",
      ("exact", 3, {"gen_deduce_eq"})),
+    ("deduce: guard on a pattern that is not a catch-all (outside the subset => hole)", "bi.rs",
+     "(true, true) | (false, false) => 0.0,",
+     "(true, true) | (false, false) => 0.0,\n                    (_, false) if cond[0].b() == cond[1].b() => 0.0,",
+     ("exact", 3, {"gen_deduce_eq"})),
+    ("deduce: guard on the last arm (outside the subset => hole)", "bi.rs",
+     "(false, true) => {\n                        let ka = rvax", "(false, true) if ay > 0.0 => {\n                        let ka = rvax",
+     ("exact", 3, {"gen_deduce_eq"})),
+    # ---- renormalisation of the binomial fusions (repair df72a91)
+    ("cfuse: renormalisation dropped (pre-repair text)", "bi.rs",
+     "(rhs.u() * ca + self.u() * cb)\n                };\n" + RENORM + "                Self::try_new(b / s, d / s, u / s, a)",
+     "(rhs.u() * ca + self.u() * cb)\n                };\n" + RENORM + "                Self::try_new(b, d, u, a)",
+     ("exact", 0, {"gen_cfuse_eq"})),
+    ("cfuse: s = b + d + u -> s = b + u + d", "bi.rs",
+     "(rhs.u() * ca + self.u() * cb)\n                };\n" + RENORM,
+     "(rhs.u() * ca + self.u() * cb)\n                };\n" + RENORM.replace("let s = b + d + u;", "let s = b + u + d;"),
+     ("exact", 0, {"gen_cfuse_eq"})),
+    ("afuse: u / s -> u in the renormalisation", "bi.rs",
+     "a = (self.base_rate + rhs.base_rate) / 2.0;\n                }\n" + RENORM + "                Self::try_new(b / s, d / s, u / s, a)",
+     "a = (self.base_rate + rhs.base_rate) / 2.0;\n                }\n" + RENORM + "                Self::try_new(b / s, d / s, u, a)",
+     ("exact", 0, {"gen_afuse_eq"})),
+    ("wfuse: b / s -> b * s in the renormalisation", "bi.rs",
+     "a = (self.base_rate * ca + rhs.base_rate * cb) / (ca + cb);\n                }\n" + RENORM + "                Self::try_new(b / s, d / s, u / s, a)",
+     "a = (self.base_rate * ca + rhs.base_rate * cb) / (ca + cb);\n                }\n" + RENORM + "                Self::try_new(b * s, d / s, u / s, a)",
+     ("exact", 0, {"gen_wfuse_eq"})),
+    # ---- renormalisation of mul / comul / deduce (repair d46c983)
+    ("mul: renormalisation dropped (pre-repair text)", "bi.rs",
+     "/ na;\n" + RENORM2 + "                Self::new(b / s, d / s, u / s, a)",
+     "/ na;\n" + RENORM2 + "                Self::new(b, d, u, a)", ("exact", 0, {"gen_mul_eq"})),
+    ("mul: s = b + d + u -> s = d + b + u", "bi.rs",
+     "/ na;\n" + RENORM2, "/ na;\n" + RENORM2.replace("let s = b + d + u;", "let s = d + b + u;"),
+     ("exact", 0, {"gen_mul_eq"})),
+    ("comul: u / s -> u in the renormalisation", "bi.rs",
+     "/ a;\n" + RENORM2 + "                Self::new(b / s, d / s, u / s, a)",
+     "/ a;\n" + RENORM2 + "                Self::new(b / s, d / s, u, a)", ("exact", 0, {"gen_comul_eq"})),
+    ("deduce: d / s -> d * s in the renormalisation", "bi.rs",
+     "let a = ay;\n" + RENORM2 + "                Self::new(b / s, d / s, u / s, a)",
+     "let a = ay;\n" + RENORM2 + "                Self::new(b / s, d * s, u / s, a)", ("exact", 0, {"gen_deduce_eq"})),
+    ("deduce: renormalisation dropped (pre-repair text)", "bi.rs",
+     "let a = ay;\n" + RENORM2 + "                Self::new(b / s, d / s, u / s, a)",
+     "let a = ay;\n" + RENORM2 + "                Self::new(b, d, u, a)", ("exact", 0, {"gen_deduce_eq"})),
     ("comul: harmless commutation d*d' -> d'*d", "bi.rs",
      "let d = self.d() * rhs.d()", "let d = rhs.d() * self.d()", "gen_comul_eq"),
     ("cfuse: && -> || in the vacuous test", "bi.rs",
@@ -91,9 +153,9 @@ MUTATIONS = [
      "let b = self.b() + rhs.b() - self.b() * rhs.b();",
      "let mut b = self.b() + rhs.b() - self.b() * rhs.b(); while b > 1.0 { b = b - 1.0; }",
      ("exact", 3, {"gen_comul_eq"})),
-    ("RESILIENCE projection untranslatable: its tie and the dependent deduce fail, nothing else", "bi.rs",
+    ("RESILIENCE projection untranslatable: its tie fails, nothing else (deduce no longer calls it since b163717)", "bi.rs",
      "self.b() + self.a() * self.u()", "(self.b() + self.a() * self.u()).abs()",
-     ("exact", 3, {"gen_projection_eq", "gen_deduce_eq"})),
+     ("exact", 3, {"gen_projection_eq"})),
     ("RESILIENCE check_simplex untranslatable: try_new chain fails, the operators still check", "bi.rs",
      'check_is_one(b + d + u, "b + d + u")?;', 'check_is_one((b + d + u).abs(), "b + d + u")?;',
      ("exact", 3, {"gen_check_simplex_eq", "gen_BSimplex_try_new_eq", "gen_try_new_eq", "gen_new_eq"})),
@@ -263,8 +325,71 @@ MUTATIONS = [
      "gen_product3_eq"),
     ("product2 (unlabelled): filter a > 0 -> a >= 0", "mul/non_labeled.rs", ".filter(|&d| a[d] > V::zero())",
      ".filter(|&d| a[d] >= V::zero())", "gen_product2_eq"),
-    ("product2 (labelled): filter a > 0 -> a >= 0", "mul/labeled.rs", ".filter(|(_, _, &a)| a > V::zero())",
-     ".filter(|(_, _, &a)| a >= V::zero())", "gen_product2_labeled_eq"),
+    ("product2 (labelled): filter a > 0 -> a >= 0", "mul/labeled.rs", ".filter(|(_, &a)| a > V::zero())",
+     ".filter(|(_, &a)| a >= V::zero())", ("exact", 0, {"gen_product2_labeled_eq"})),
+    # ---- candidates for the joint uncertainty after repair abca806 (no cancellation): u0*(r1+u1) + r0*u1 with r = b/a
+    ("product2 (unlabelled): r0 / r1 exchanged in the candidate", "mul/non_labeled.rs",
+     "w0.u() * (r1 + w1.u()) + r0 * w1.u()", "w0.u() * (r0 + w1.u()) + r1 * w1.u()", ("exact", 0, {"gen_product2_eq"})),
+    ("product2 (unlabelled): the term r0*u1 dropped from the candidate", "mul/non_labeled.rs",
+     "w0.u() * (r1 + w1.u()) + r0 * w1.u()", "w0.u() * (r1 + w1.u())", ("exact", 0, {"gen_product2_eq"})),
+    ("product2 (unlabelled): + -> - in the candidate", "mul/non_labeled.rs",
+     "w0.u() * (r1 + w1.u()) + r0 * w1.u()", "w0.u() * (r1 + w1.u()) - r0 * w1.u()", ("exact", 0, {"gen_product2_eq"})),
+    ("product2 (unlabelled): candidate distributed u0*r1 + u0*u1 + r0*u1 (same value in exact arithmetic: the tie must BREAK)",
+     "mul/non_labeled.rs", "w0.u() * (r1 + w1.u()) + r0 * w1.u()", "w0.u() * r1 + w0.u() * w1.u() + r0 * w1.u()",
+     ("exact", 0, {"gen_product2_eq"})),
+    ("product2 (unlabelled): r1 = b / a -> a / b", "mul/non_labeled.rs",
+     "let r1 = w1.b()[d[1]] / w1.base_rate[d[1]];\n                w0.u() * (r1 + w1.u()) + r0 * w1.u()",
+     "let r1 = w1.base_rate[d[1]] / w1.b()[d[1]];\n                w0.u() * (r1 + w1.u()) + r0 * w1.u()",
+     ("exact", 0, {"gen_product2_eq"})),
+    ("product2 (unlabelled): the cancelling pre-repair candidate re-inserted (same value on exactly well-formed operands: the tie must BREAK)",
+     "mul/non_labeled.rs",
+     ".map(|d| {\n                let r0 = w0.b()[d[0]] / w0.base_rate[d[0]];\n                let r1 = w1.b()[d[1]] / w1.base_rate[d[1]];\n"
+     "                w0.u() * (r1 + w1.u()) + r0 * w1.u()\n            })",
+     ".map(|d| (p[d] - w0.b()[d[0]] * w1.b()[d[1]]) / a[d])", ("exact", 0, {"gen_product2_eq"})),
+    ("product3 (unlabelled): + -> - in the inner sum of the candidate", "mul/non_labeled.rs",
+     "r0 * (w1.u() * (r2 + w2.u()) + r1 * w2.u())", "r0 * (w1.u() * (r2 + w2.u()) - r1 * w2.u())",
+     ("exact", 0, {"gen_product3_eq"})),
+    ("product3 (unlabelled): r2 taken at d[1] (kind error => hole)", "mul/non_labeled.rs",
+     "let r2 = w2.b()[d[2]] / w2.base_rate[d[2]];", "let r2 = w2.b()[d[1]] / w2.base_rate[d[2]];",
+     ("exact", 3, {"gen_product3_eq"})),
+    ("product2 (labelled): r0 / r1 exchanged in the closure pattern", "mul/labeled.rs",
+     ".map(|((r0, r1), _)| u0 * (r1 + u1) + r0 * u1)", ".map(|((r1, r0), _)| u0 * (r1 + u1) + r0 * u1)",
+     ("exact", 0, {"gen_product2_labeled_eq"})),
+    ("product2 (labelled): the term r0*u1 dropped from the candidate", "mul/labeled.rs",
+     ".map(|((r0, r1), _)| u0 * (r1 + u1) + r0 * u1)", ".map(|((_, r1), _)| u0 * (r1 + u1))",
+     ("exact", 0, {"gen_product2_labeled_eq"})),
+    ("product2 (labelled): + -> - in the candidate", "mul/labeled.rs",
+     ".map(|((r0, r1), _)| u0 * (r1 + u1) + r0 * u1)", ".map(|((r0, r1), _)| u0 * (r1 + u1) - r0 * u1)",
+     ("exact", 0, {"gen_product2_labeled_eq"})),
+    ("product2 (labelled): (u0, u1) bound to (w1.u(), w0.u())", "mul/labeled.rs",
+     "let (u0, u1) = (w0.u(), w1.u());", "let (u0, u1) = (w1.u(), w0.u());", ("exact", 0, {"gen_product2_labeled_eq"})),
+    ("product2 (labelled): r1 = b / a -> a / b", "mul/labeled.rs",
+     "let r1 = izip!(&w1.simplex.belief, w1.base_rate).map(|(&b, &a)| b / a);\n        let (u0, u1)",
+     "let r1 = izip!(&w1.simplex.belief, w1.base_rate).map(|(&b, &a)| a / b);\n        let (u0, u1)",
+     ("exact", 0, {"gen_product2_labeled_eq"})),
+    ("product2 (labelled): r1 built from the operand w0 (shape error => holes)", "mul/labeled.rs",
+     "let r1 = izip!(&w1.simplex.belief, w1.base_rate).map(|(&b, &a)| b / a);\n        let (u0, u1)",
+     "let r1 = izip!(&w0.simplex.belief, w0.base_rate).map(|(&b, &a)| b / a);\n        let (u0, u1)",
+     ("exact", 3, {"gen_product2_labeled_eq", "gen_merge_cond2_labeled_eq"})),
+    ("product2 (labelled): iproduct!(r1, r0) (column-major pairing; shape error => holes)", "mul/labeled.rs",
+     "izip!(iproduct!(r0, r1), &a)", "izip!(iproduct!(r1, r0), &a)",
+     ("exact", 3, {"gen_product2_labeled_eq", "gen_merge_cond2_labeled_eq"})),
+    ("product2 (labelled): iproduct! over a table instead of a mapped iterator (outside the subset => holes)", "mul/labeled.rs",
+     "izip!(iproduct!(r0, r1), &a)", "izip!(iproduct!(r0, &w1.simplex.belief), &a)",
+     ("exact", 3, {"gen_product2_labeled_eq", "gen_merge_cond2_labeled_eq"})),
+    ("product2 (labelled): the cancelling pre-repair candidate re-inserted (same value on exactly well-formed operands: the tie must BREAK)",
+     "mul/labeled.rs",
+     "        let u = izip!(iproduct!(r0, r1), &a)\n            .filter(|(_, &a)| a > V::zero())\n"
+     "            .map(|((r0, r1), _)| u0 * (r1 + u1) + r0 * u1)",
+     "        let b_iter = product2_iter(&w0.simplex.belief, &w1.simplex.belief);\n"
+     "        let u = izip!(p_iter.clone(), b_iter, &a)\n            .filter(|(_, _, &a)| a > V::zero())\n"
+     "            .map(|(p, b, &a)| (p - b) / a)", ("exact", 0, {"gen_product2_labeled_eq"})),
+    ("product3 (labelled): the term r1*u2 dropped from the candidate", "mul/labeled.rs",
+     "r0 * (u1 * (r2 + u2) + r1 * u2))", "r0 * (u1 * (r2 + u2)))", ("exact", 0, {"gen_product3_labeled_eq"})),
+    ("product3 (labelled): r1 / r2 exchanged in the closure pattern", "mul/labeled.rs",
+     ".map(|((r0, r1, r2), _)|", ".map(|((r0, r2, r1), _)|", ("exact", 0, {"gen_product3_labeled_eq"})),
+    ("product3 (labelled): nested item pattern ((r0, r1), r2) (not the flat tuples of iproduct!; outside the subset => hole)",
+     "mul/labeled.rs", ".map(|((r0, r1, r2), _)|", ".map(|(((r0, r1), r2), _)|", ("exact", 3, {"gen_product3_labeled_eq"})),
     ("merge_cond2: x1_y inverted with ay instead of the marginal base rate", "mul.rs",
      "let x1_y = y_x1.inverse(ax1, mbr(ax1, y_x1).as_ref().unwrap_or(ay));", "let x1_y = y_x1.inverse(ax1, ay);",
      ("exact", 0, {"gen_merge_cond2_unlabeled_eq", "gen_merge_cond2_labeled_eq"})),
@@ -285,9 +410,9 @@ MUTATIONS = [
      ("exact", 3, {"gen_product3_labeled_eq"})),
     ("into_opinion: no base-rate check", "mul/non_labeled.rs", "check_base_rate(&a)?;\n        Ok(Opinion1d {",
      "Ok(Opinion1d {", "gen_Simplex1d_into_opinion_eq"),
-    ("product2 (labelled): (p - b) -> (b - p)", "mul/labeled.rs",
-     ".map(|(p, b, &a)| (p - b) / a)\n            .reduce(V::min)\n            .unwrap();\n        let b = MArrD2",
-     ".map(|(p, b, &a)| (b - p) / a)\n            .reduce(V::min)\n            .unwrap();\n        let b = MArrD2",
+    ("product2 (labelled): p - a*u -> a*u - p in b", "mul/labeled.rs",
+     "MArrD2::<D0, D1, V>::from_iter(p_iter.zip(&a).map(|(p, &a)| p - a * u))",
+     "MArrD2::<D0, D1, V>::from_iter(p_iter.zip(&a).map(|(p, &a)| a * u - p))",
      "gen_product2_labeled_eq"),
     ("VALIDATE product2 (labelled): Opinion::new instead of normalized: ill-typed output becomes a hole", "mul/labeled.rs",
      "let b = MArrD2::<D0, D1, V>::from_iter(p_iter.zip(&a).map(|(p, &a)| p - a * u));\n        Opinion::normalized(b, u, a)",
@@ -307,6 +432,40 @@ MUTATIONS = [
      "FuseOp::ACm | FuseOp::ECm if lhs.is_vacuous() || rhs.is_dogmatic() => {\n                rhs.base_rate.clone()",
      "FuseOp::ACm | FuseOp::ECm if lhs.is_vacuous() && rhs.is_dogmatic() => {\n                rhs.base_rate.clone()",
      "gen_compute_base_rate_eq"),
+    # ---- compute_base_rate after repair c8a7116: the per-entry shortcut is `if l == r { l } else { formula }`
+    ("compute_base_rate: one shortcut test back to ulps_eq! (Avg arm)", "mul.rs", BR_AVG,
+     BR_AVG.replace("if lhs.base_rate[i] == rhs.base_rate[i] {", "if ulps_eq!(lhs.base_rate[i], rhs.base_rate[i]) {"),
+     ("exact", 0, {"gen_compute_base_rate_eq"})),
+    ("compute_base_rate: one shortcut returns the right entry (Avg arm; differs on signed zeros only: the tie must BREAK)",
+     "mul.rs", BR_AVG, BR_AVG[:-len("lhs.base_rate[i]")] + "rhs.base_rate[i]", ("exact", 0, {"gen_compute_base_rate_eq"})),
+    ("compute_base_rate: one shortcut test with the operands exchanged (Wgh formula arm)", "mul.rs", BR_WGH,
+     BR_WGH.replace("if lhs.base_rate[i] == rhs.base_rate[i] {", "if rhs.base_rate[i] == lhs.base_rate[i] {"),
+     ("exact", 0, {"gen_compute_base_rate_eq"})),
+    ("compute_base_rate: one shortcut removed (Wgh formula arm; same value in exact arithmetic: the tie must BREAK)", "mul.rs",
+     BR_WGH, BR_WGH.replace("if lhs.base_rate[i] == rhs.base_rate[i] {", "if false {"), "gen_compute_base_rate_eq"),
+    # a local closure over scalars that is later called (`let mid = |l: V, r: V| ..; .. mid(x, y)`, the shape of the
+    # intermediate repair c0b2ed5) is translated as a let-bound function; other closure shapes stay explicit holes.
+    # (two edits per mutation: old / new parts separated by a form feed)
+    ("compute_base_rate: shortcut value through a local closure returning its first argument (same function: all pass)", "mul.rs",
+     BR_HEAD + "\f" + BR_AVG,
+     "    let pick = |l: V, r: V| l;\n" + BR_HEAD + "\f"
+     + BR_AVG[:-len("lhs.base_rate[i]")] + "pick(lhs.base_rate[i], rhs.base_rate[i])", None),
+    ("compute_base_rate: shortcut value through the closure `mid` of c0b2ed5 (mean of unequal entries)", "mul.rs",
+     BR_HEAD + "\f" + BR_AVG,
+     "    let mid = |l: V, r: V| if r == l { l } else { (l + r) / (V::one() + V::one()) };\n" + BR_HEAD + "\f"
+     + BR_AVG[:-len("lhs.base_rate[i]")] + "mid(lhs.base_rate[i], rhs.base_rate[i])", ("exact", 0, {"gen_compute_base_rate_eq"})),
+    ("compute_base_rate: local closure with unannotated parameters (refused shape: explicit hole)", "mul.rs",
+     BR_HEAD + "\f" + BR_AVG,
+     "    let pick = |l, r| l;\n" + BR_HEAD + "\f" + BR_AVG[:-len("lhs.base_rate[i]")] + "pick(lhs.base_rate[i], rhs.base_rate[i])",
+     ("exact", 3, FUSE_DEPS)),
+    ("compute_base_rate: local closure declared `let mut` (refused shape: explicit hole)", "mul.rs",
+     BR_HEAD, "    let mut pick = |l: V, r: V| l;\n" + BR_HEAD, ("exact", 3, FUSE_DEPS)),
+    ("compute_base_rate: local closure with a return type annotation (refused shape: explicit hole)", "mul.rs",
+     BR_HEAD, "    let pick = |l: V, r: V| -> V { l };\n" + BR_HEAD, ("exact", 3, FUSE_DEPS)),
+    ("compute_base_rate: local closure called with a non-scalar argument (refused: explicit hole)", "mul.rs",
+     BR_HEAD + "\f" + BR_AVG,
+     "    let pick = |l: V, r: V| l;\n" + BR_HEAD + "\f" + BR_AVG[:-len("lhs.base_rate[i]")] + "pick(lhs.base_rate[i], i)",
+     ("exact", 3, FUSE_DEPS)),
     ("max_uncertainty: p/a -> a/p", "mul.rs", "p[i] / a[i]", "a[i] / p[i]", "gen_max_uncertainty_eq"),
     ("max_uncertainty: min -> max", "mul.rs", "u = u.min(temp);", "u = u.max(temp);", "gen_max_uncertainty_eq"),
     ("uncertainty_maximized: - -> +", "mul.rs", "p[i] - a[i] * u_max", "p[i] + a[i] * u_max",
@@ -418,11 +577,12 @@ def main():
             elif old is not None:
                 p = os.path.join(src, fname)
                 t = open(p).read()
-                if t.count(old) < 1:
+                if any(t.count(o_) < 1 for o_ in old.split("\f")) or len(old.split("\f")) != len(new.split("\f")):
                     print("SKIP  %-70s (pattern not found in %s)" % (name, fname))
                     ok_all = False
                     continue
-                t = t.replace(old, new, 1)
+                for o_, n_ in zip(old.split("\f"), new.split("\f")):      # several edits: parts separated by a form feed
+                    t = t.replace(o_, n_, 1)
                 open(p, "w").write(t)
             rc, tout = run([sys.executable, os.path.join(HERE, "rs2lean.py"), "--src", src, "--out", out, "--only", which]
                            + (["--validate", "--lean-root", LEAN] if name.startswith("VALIDATE") else []))
